@@ -317,7 +317,10 @@ def run_witness_task(task):
                     out["tried"].append("time budget exhausted before U=%d k=%d K=%d" % (U, k, K))
                     break
                 try:
-                    script, info = with_time_limit(min(left, task["timeout"]), W.search_forced, su, U, k, K, timeout_s=int(min(left, task["timeout"])))
+                    k2 = 0
+                    if k >= 10:          # plan code: 10*k1 + k2 = k1 calls, close, k2 calls, close
+                        k, k2 = k // 10, k % 10
+                    script, info = with_time_limit(min(left, task["timeout"]), W.search_forced, su, U, k, K, timeout_s=int(min(left, task["timeout"])), k2=k2)
                 except (V.Unsupported, MemoryError, Timeout) as ex:
                     out["tried"].append("U=%d k=%d K=%d: %s: %s" % (U, k, K, type(ex).__name__, ex))
                     continue
